@@ -5,6 +5,8 @@ import KcpVerif.Lemmas.KcpState
 import KcpVerif.Lemmas.KcpTimer
 import KcpVerif.Lemmas.KcpMove
 import KcpVerif.Lemmas.SysCleanRun
+import KcpVerif.Lemmas.SysProgress
+import KcpVerif.Lemmas.SysProgress2
 /-! C02 — eventual delivery: a healed network always drains the backlog. -/
 namespace KcpVerif.Props
 open KcpVerif KcpVerif.Gen KcpVerif.Kcp KcpVerif.Live
@@ -473,5 +475,126 @@ example : SysC.RunOk (Kcp.noDelay (Kcp.new 7) 1 10 2 1).snd_nxt
 example : ((Sys.run (Sys.init (Kcp.noDelay (Kcp.new 7) 1 10 2 1) (Kcp.noDelay (Kcp.new 7) 1 10 2 1) 3 1000)
     [.send [1, 2, 3], .flushA, .tick, .tick, .tick]).A.snd_buf.map (fun x => (x.sn, x.ts, x.acked))) =
     [(0, 1000, false)] := by decide
+
+/-! ### progress and drain on the closed system, clean history
+
+`SysC.Keep` (Lemmas/SysProgress.lean): no event modifies a segment in A's send buffer or brings an old
+sequence number back.  Together with the latency bound of the invariant this gives a progress step
+with an explicit bound and, once the writer has stopped, the drain.  What these theorems do NOT cover
+is the general statement `C02_drain_full` / `C02_progress_step_full` below: arbitrary endpoint states
+with arbitrary datagrams in flight (retransmissions, duplicate and out-of-order arrivals,
+acknowledged-but-not-removed segments, zero-window probing). -/
+
+open KcpVerif.Sys KcpVerif.SysC in
+/-- **Progress step (clean history).**  Let `s₁` be any state reached from a clean start
+(`CleanInit`, `WinInit`) and `s₂` any state reached from `s₁` by any events (more `Send`s included)
+after more than `2 D + interval_B` and less than 2^31 milliseconds.  Then `snd_una` of A at `s₂` is at
+or beyond `snd_nxt` of A at `s₁`: every segment that had been admitted at `s₁` — the segment `snd_una`
+in particular — has been delivered to B and its acknowledgement has reached A.  Only run hypothesis:
+`NoWrap` (fewer than 2^31 segments queued over the run). -/
+theorem C02_clean_progress_step (A B : Kcp) (D t0 : Nat) (ndA ndB : Bool) (hinit : CleanInit A B D) (hwin : WinInit A B)
+    (evs1 evs2 : List Ev) (hrun : RunNoWrap A.snd_nxt (Sys.init A B D t0 ndA ndB) (evs1 ++ evs2))
+    (ht1 : (Sys.run (Sys.init A B D t0 ndA ndB) evs1).now + 2 * D + B.interval.toNat <
+      (Sys.run (Sys.init A B D t0 ndA ndB) (evs1 ++ evs2)).now)
+    (ht2 : (Sys.run (Sys.init A B D t0 ndA ndB) (evs1 ++ evs2)).now <
+      (Sys.run (Sys.init A B D t0 ndA ndB) evs1).now + 2 ^ 31) :
+    o A.snd_nxt (Sys.run (Sys.init A B D t0 ndA ndB) evs1).A.snd_nxt ≤
+      o A.snd_nxt (Sys.run (Sys.init A B D t0 ndA ndB) (evs1 ++ evs2)).A.snd_una := by
+  obtain ⟨hr1, hr2⟩ := (runNoWrap_append A.snd_nxt evs1 evs2 _).mp hrun
+  obtain ⟨gab, gba, hc, hw, _⟩ := cleanwin_run (p := parOf A B) evs1 _ [] []
+    (clean_init A B D t0 ndA ndB hinit) (win_init A B D t0 ndA ndB hinit hwin) hr1
+  have hrun2 : Sys.run (Sys.init A B D t0 ndA ndB) (evs1 ++ evs2) =
+      Sys.run (Sys.run (Sys.init A B D t0 ndA ndB) evs1) evs2 := by
+    unfold Sys.run; rw [List.foldl_append]
+  rw [hrun2] at ht1 ht2 ⊢
+  exact clean_progress_una hc hw evs2 hr2 (by rw [run_D]; exact ht1) ht2
+
+open KcpVerif.Sys KcpVerif.SysC in
+/-- **Drain (clean history).**  If moreover the send queue of A is empty at `s₁` and the writer does
+not `Send` afterwards, then at `s₂` nothing is waiting to be sent or acknowledged:
+`A.WaitSnd = 0`, `2 D + interval_B` after the writer stopped. -/
+theorem C02_clean_drain (A B : Kcp) (D t0 : Nat) (ndA ndB : Bool) (hinit : CleanInit A B D) (hwin : WinInit A B)
+    (evs1 evs2 : List Ev) (hrun : RunNoWrap A.snd_nxt (Sys.init A B D t0 ndA ndB) (evs1 ++ evs2))
+    (hq : (Sys.run (Sys.init A B D t0 ndA ndB) evs1).A.snd_queue = []) (hns : ∀ ev ∈ evs2, isSend ev = false)
+    (ht1 : (Sys.run (Sys.init A B D t0 ndA ndB) evs1).now + 2 * D + B.interval.toNat <
+      (Sys.run (Sys.init A B D t0 ndA ndB) (evs1 ++ evs2)).now)
+    (ht2 : (Sys.run (Sys.init A B D t0 ndA ndB) (evs1 ++ evs2)).now <
+      (Sys.run (Sys.init A B D t0 ndA ndB) evs1).now + 2 ^ 31) :
+    (Sys.run (Sys.init A B D t0 ndA ndB) (evs1 ++ evs2)).A.waitSnd = 0 := by
+  obtain ⟨hr1, hr2⟩ := (runNoWrap_append A.snd_nxt evs1 evs2 _).mp hrun
+  obtain ⟨gab, gba, hc, hw, _⟩ := cleanwin_run (p := parOf A B) evs1 _ [] []
+    (clean_init A B D t0 ndA ndB hinit) (win_init A B D t0 ndA ndB hinit hwin) hr1
+  have hrun2 : Sys.run (Sys.init A B D t0 ndA ndB) (evs1 ++ evs2) =
+      Sys.run (Sys.run (Sys.init A B D t0 ndA ndB) evs1) evs2 := by
+    unfold Sys.run; rw [List.foldl_append]
+  rw [hrun2] at ht1 ht2 ⊢
+  exact clean_drain hc hw evs2 hr2 hq hns (by rw [run_D]; exact ht1) ht2
+
+/-- **the progress step from an arbitrary state (full statement, not proved)**: in `Sys`, from ANY
+pair of endpoint states satisfying the per-endpoint invariants, with any datagrams in flight, the
+segment `snd_una` of A is delivered and its acknowledgement reaches A within the time to its next
+retransmission plus `2 D + interval_A + interval_B`: whenever the clock has advanced that far,
+`snd_una` has moved -/
+def C02_progress_step_full : Prop :=
+  ∀ (s : Sys.State) (x : Seg), C02_EndpointOk s.A → C02_EndpointOk s.B → s.A.conv = s.B.conv →
+    s.A.snd_buf.head? = some x → x.sn = s.A.snd_una → x.xmit ≠ 0 →
+    ∀ evs : List Sys.Ev,
+      s.now + (itimediff x.resendts (Sys.clk s.now)).toNat + 2 * s.D + s.A.interval.toNat + s.B.interval.toNat <
+        (Sys.run s evs).now →
+      (Sys.run s evs).A.snd_una ≠ s.A.snd_una
+
+/-! non-vacuity of the two theorems: nodelay mode, `D = 3`, interval 10; 3 bytes are queued and flushed
+at t = 1000 (`evs1`); `evs2` is the canonical schedule up to t = 1017 > 1000 + 2·3 + 10 -/
+
+def c02A : Kcp := Kcp.noDelay (Kcp.new 7) 1 10 2 1
+def c02Evs1 : List Sys.Ev := [.send [1, 2, 3], .flushA]
+def c02Evs2 : List Sys.Ev :=
+  [.tick, .tick, .tick, .dlvB, .read, .flushB, .tick, .tick, .tick, .dlvA, .tick, .tick, .tick, .tick, .flushA,
+   .tick, .tick, .tick, .flushB, .tick, .tick, .tick, .tick]
+
+example : SysC.CleanInit c02A c02A 3 ∧ SysC.WinInit c02A c02A := by decide
+set_option maxRecDepth 100000 in
+example : SysC.RunNoWrap c02A.snd_nxt (Sys.init c02A c02A 3 1000) (c02Evs1 ++ c02Evs2) := by decide
+set_option maxRecDepth 100000 in
+example : (Sys.run (Sys.init c02A c02A 3 1000) c02Evs1).now = 1000 ∧
+    (Sys.run (Sys.init c02A c02A 3 1000) c02Evs1).A.snd_queue = [] ∧
+    (Sys.run (Sys.init c02A c02A 3 1000) c02Evs1).A.snd_buf.length = 1 ∧
+    (Sys.run (Sys.init c02A c02A 3 1000) (c02Evs1 ++ c02Evs2)).now = 1017 ∧
+    (∀ ev ∈ c02Evs2, SysC.isSend ev = false) := by decide
+
+/-! ### the same two theorems without the upper bound on the elapsed time
+
+The clock passes through every value (`SysC.run_reaches`); the bounded statements apply at the first
+moment past `2 D + interval_B`, and `SysC.Keep` carries the conclusion to every later state. -/
+
+open KcpVerif.Sys KcpVerif.SysC in
+/-- **Progress step (clean history), any later time**: as `C02_clean_progress_step`, for EVERY state
+reached more than `2 D + interval_B` ms after `s₁`. -/
+theorem C02_progress_step_clean (A B : Kcp) (D t0 : Nat) (ndA ndB : Bool) (hinit : CleanInit A B D) (hwin : WinInit A B)
+    (evs1 evs2 : List Ev) (hrun : RunNoWrap A.snd_nxt (Sys.init A B D t0 ndA ndB) (evs1 ++ evs2))
+    (ht1 : (Sys.run (Sys.init A B D t0 ndA ndB) evs1).now + 2 * D + B.interval.toNat <
+      (Sys.run (Sys.init A B D t0 ndA ndB) (evs1 ++ evs2)).now) :
+    o A.snd_nxt (Sys.run (Sys.init A B D t0 ndA ndB) evs1).A.snd_nxt ≤
+      o A.snd_nxt (Sys.run (Sys.init A B D t0 ndA ndB) (evs1 ++ evs2)).A.snd_una := by
+  obtain ⟨hr1, hr2⟩ := (runNoWrap_append A.snd_nxt evs1 evs2 _).mp hrun
+  obtain ⟨gab, gba, hc, hw, _⟩ := cleanwin_run (p := parOf A B) evs1 _ [] []
+    (clean_init A B D t0 ndA ndB hinit) (win_init A B D t0 ndA ndB hinit hwin) hr1
+  rw [SysC.run_append] at ht1 ⊢
+  exact (clean_progress_ever hc hw evs2 hr2 (by rw [run_D]; exact ht1)).2
+
+open KcpVerif.Sys KcpVerif.SysC in
+/-- **Drain (clean history), any later time**: the writer has stopped with an empty send queue at
+`s₁`; in EVERY state reached more than `2 D + interval_B` ms later, `A.WaitSnd = 0`. -/
+theorem C02_drain_clean (A B : Kcp) (D t0 : Nat) (ndA ndB : Bool) (hinit : CleanInit A B D) (hwin : WinInit A B)
+    (evs1 evs2 : List Ev) (hrun : RunNoWrap A.snd_nxt (Sys.init A B D t0 ndA ndB) (evs1 ++ evs2))
+    (hq : (Sys.run (Sys.init A B D t0 ndA ndB) evs1).A.snd_queue = []) (hns : ∀ ev ∈ evs2, isSend ev = false)
+    (ht1 : (Sys.run (Sys.init A B D t0 ndA ndB) evs1).now + 2 * D + B.interval.toNat <
+      (Sys.run (Sys.init A B D t0 ndA ndB) (evs1 ++ evs2)).now) :
+    (Sys.run (Sys.init A B D t0 ndA ndB) (evs1 ++ evs2)).A.waitSnd = 0 := by
+  obtain ⟨hr1, hr2⟩ := (runNoWrap_append A.snd_nxt evs1 evs2 _).mp hrun
+  obtain ⟨gab, gba, hc, hw, _⟩ := cleanwin_run (p := parOf A B) evs1 _ [] []
+    (clean_init A B D t0 ndA ndB hinit) (win_init A B D t0 ndA ndB hinit hwin) hr1
+  rw [SysC.run_append] at ht1 ⊢
+  exact clean_drain_ever hc hw evs2 hr2 hq hns (by rw [run_D]; exact ht1)
 
 end KcpVerif.Props
